@@ -8,6 +8,7 @@ pub mod c03;
 pub mod c04;
 pub mod c05;
 pub mod c06;
+pub mod c07;
 pub mod c16;
 
 pub struct PropDef {
@@ -25,6 +26,7 @@ pub fn get(id: &str) -> Option<PropDef> {
         "C04" => Some(c04::def()),
         "C05" => Some(c05::def()),
         "C06" => Some(c06::def()),
+        "C07" => Some(c07::def()),
         "C16" => Some(c16::def()),
         _ => None,
     }
